@@ -147,6 +147,8 @@ def build(w: dict) -> xarray.Dataset:
             ds[dc["name"]] = da
             if w.get("depth_as", "coords") == "coords":       # (after reset_coords / decode_coords=False they are plain variables)
                 ds = ds.set_coords(dc["name"])
+    if w.get("depth_bounds_as") == "coords":
+        ds = ds.set_coords([dc["name"] + "_bnds" for dc in w["depths"] if dc["bounds"]])
     for v in w["depthvars"]:
         arr = numpy.array([numpy.nan if x == MISSING else float(x) for x in v["data"]], dtype=v["dtype"]).reshape(v["shape"])
         ds[v["name"]] = xarray.DataArray(arr, dims=v["dims"])
@@ -412,6 +414,19 @@ def _cases(tier: str, seed: int, *, kinds=("norm", "floor")) -> list[dict]:
                 out.append({"src": "mc", "world": _with_coord(w2, depth_coord("depth", "k", 3, down, deepfirst, attr, True)),
                             "events": [{"a": "Normalize", "pd": pd, "d2s": d2s, "via": "function"},
                                        {"a": "Normalize", "pd": pd, "d2s": d2s, "via": "function"}]})
+    if "norm" in kinds:
+        # round 13: depth bounds held as COORDINATES of the dataset (set_coords / decode_coords="all") instead of data
+        # variables; the sign is flipped, so the bounds must follow
+        r13 = random.Random(1313)
+        for conv in ("cf1d", "shoc_standard", "ugrid", "cf2d"):
+            for down in (True, False):
+                w = make_world(conv, r13, two=False, K=3)
+                w = _with_coord(w, depth_coord(w["depths"][0]["name"], w["depths"][0]["dim"], 3, down, False, True, True))
+                w["depth_bounds_as"] = "coords"
+                w["pin_via"] = "memory" if down else "file"
+                out.append({"src": "gen", "world": w, "events": [
+                    {"a": "Normalize", "pd": "no" if down else "yes", "d2s": "none", "via": "function"},
+                    {"a": "Normalize", "pd": "yes" if down else "no", "d2s": "yes", "via": "accessor"}]})
     return out
 
 
